@@ -348,6 +348,8 @@ func addLit(out *[]formulaSite, fn, target, v string, pos token.Pos) {
 var formulaHelpers = map[string][]string{}
 
 func collectFormulas(p *Prog) map[string][]formulaSite {
+	polyInline = inlinableFuncs(p)
+	defer func() { polyInline = nil }()
 	out := map[string][]formulaSite{}
 	formulaDecls = map[string]cmpDecl{}
 	formulaHelpers = map[string][]string{}
